@@ -13,7 +13,12 @@ def _closure_stmt(view, block, closure_path):
     return None
 
 
-def resolve(model, chain, view, origins, depth=0, taint=False):
+_ELEMENT_ADAPTERS = re.compile(
+    r"as std::iter::Iterator>::(map|for_each|filter|any|all|find|filter_map|try_for_each|position|flat_map|inspect|take_while|skip_while|find_map)$"
+    r"|^std::option::Option::(map|and_then|map_or|map_or_else|filter|is_some_and)$|^std::result::Result::(map|and_then)$")
+
+
+def resolve(model, chain, view, origins, depth=0, taint=False, elems=False):
     """Resolve `param` origins of `view` (the callee at the end of `chain`) to origins in the
     frames above it, up to the root. Closure upvars are resolved to the parent's operands;
     the value argument of a closure given to Item/Map::update is the loaded item."""
@@ -30,7 +35,7 @@ def resolve(model, chain, view, origins, depth=0, taint=False):
                 out.add(o)
                 continue
             sub = cv.origins_of_operand(t["args"][o.a - 1], proj=o.proj, at=cv.at_term(b), taint=taint)
-            out |= resolve(model, chain[:-1], cv, sub, depth + 1, taint)
+            out |= resolve(model, chain[:-1], cv, sub, depth + 1, taint, elems)
         elif kind == "closure":
             st = _closure_stmt(cv, b, view.path)
             if st is None:
@@ -43,7 +48,7 @@ def resolve(model, chain, view, origins, depth=0, taint=False):
                     if idx < len(ops):
                         i = cv.blocks[b]["s"].index(st)
                         sub = cv.origins_of_operand(ops[idx], proj=o.proj[1:], at=(b, i), taint=taint)
-                        out |= resolve(model, chain[:-1], cv, sub, depth + 1, taint)
+                        out |= resolve(model, chain[:-1], cv, sub, depth + 1, taint, elems)
                         continue
                 out.add(o)
             else:
@@ -59,6 +64,11 @@ def resolve(model, chain, view, origins, depth=0, taint=False):
                                     if it.kind == "item":
                                         out.add(Origin("load", it.a, None, o.proj))
                                         found = True
+                            elif elems and o.a == 2 and _ELEMENT_ADAPTERS.search(mname(t)) and t["args"][0] is not a:
+                                # the closure's argument is an element of the adapted iterator / the payload of the option
+                                sub = cv.origins_of_operand(t["args"][0], proj=o.proj, at=cv.at_term(cb), taint=taint)
+                                out |= resolve(model, chain[:-1], cv, sub, depth + 1, taint, elems)
+                                found = True
                             else:
                                 out.add(Origin("closure_arg", mname(t), "%s:bb%d" % (cv.path, cb), o.proj))
                                 found = True
